@@ -105,6 +105,28 @@ CLAIMS = {
               "getter/setter key agreement; ProprietaryKey and Schnorr-signature codecs. Value codecs that delegate to consensus encoding are C01."),
         technique="table bijection between sibling writer/reader extracted from MIR + guard dominance + who-may-write rule",
         design_ref="§4 C07"),
+    "C06": dict(
+        category="other",
+        text=("Decides the structural clauses of C06: the compiler-evaluated AddressParams constants equal the reference and are pairwise "
+              "disjoint (9 version bytes, 6 HRPs); the set of data lengths the blech32 decoder accepts is obtained as an exhaustive decision "
+              "table over len 0..200 x {v0, v1+} and must be {53,65} / 35..=73; padding masks 2^k-1; Display and the parsers agree on layout "
+              "(key before program; prefix bytes/offsets of the base58 forms), on the prefix constants compared and on the checksum variant "
+              "per witness version; prefix dispatch returns the segwit result without falling through to base58, FromStr tries exactly the "
+              "three networks, versions > 16 are rejected. Character-for-character agreement with independent encoders is not decided."),
+        technique="evaluated-constant tables + exhaustive decision table over lengths + sibling layout agreement between Display and parsers",
+        design_ref="§4 C06"),
+    "C17": dict(
+        category="proof",
+        text=("Proof by finite computation for the data-part clause: from the generator constants rustc evaluated out of /repo, all 31*N "
+              "single-error syndromes (N = longest string the parser can check, derived from the HRP constants and accepted program "
+              "lengths) are distinct and non-zero for blech32 and blech32m, so no one- or two-character corruption of the data part maps a "
+              "codeword to a codeword; no weight<=2 pattern bridges the two residues (version-character changes); the constants equal the "
+              "Elements reference and are internally consistent; and the decoder reaches Ok only through the residue comparison over the HRP "
+              "and every data character. The human-readable-part clause is NOT claimed (rejection there is probabilistic)."),
+        technique="algebraic distance computation on compiler-evaluated constants + must-pass-through of the residue check",
+        design_ref="§4 C17",
+        note=("Trusted base: rustc const evaluation; the bech32 crate's polymod engine (dependency); Python integer arithmetic; the MIR dump for the "
+              "structure obligations. The unblinded bech32/bech32m path uses the dependency's decoder and constants (side-checked on the published values).")),
 }
 
 NOT_YET = "rule set designed in DESIGN.md but not built yet in this round; no claim is made"
